@@ -281,6 +281,10 @@ def _gen_block(np, r, i):
         rb_in, rbform = [int(x) for x in rb], "list"
     else:
         rb_in, rbform = rb.copy(), "index"
+    if rbform in ("list", "index") and len(rb) >= 2 and r.random() < 0.5:
+        # an index vector is a set: its order must not matter (01de8f2)
+        pp = r.permutation(len(rb))
+        rb_in = [int(rb[j]) for j in pp] if rbform == "list" else rb[pp].copy()
     q = int(r.integers(3))
     if nrf == 0:
         rf_in, rfform = (None, "none") if q else ([], "empty-list")
